@@ -212,8 +212,10 @@ class EditMedia(HTMLHandlerBase):
         login_required(permission=models.Group.MEDIA),
     ]
 
-    @classmethod
-    def next_url(cls, spk: int, **kwargs) -> str:
+    def next_url(self, spk: int, **kwargs) -> str:
+        # passed to csrf_token_required while the class is being defined,
+        # which calls it with the arguments of the view (a classmethod
+        # object is not callable at that point)
         return flask.url_for('view-stream', spk=current_stream.pk)
 
     def get(self, spk: int, mfid: int) -> flask.Response:
